@@ -262,9 +262,32 @@ func (r *rewriter) rewriteStmt(s ast.Stmt) ast.Stmt {
 			// range over a channel is not in the tree's vocabulary; we cannot tell
 			// syntactically, so nothing to do here (checked by the free/sched
 			// equivalence test).
+			//
+			// range over a MAP whose iteration order decides the order of channel operations is nondeterminism the
+			// scheduler must own: the listed maps are iterated in sorted key order (one of the orders Go allows).
+			if sel, ok := n.X.(*ast.SelectorExpr); ok && sortedRangeSites[r.rel][sel.Sel.Name] && pure(n.X) && n.Tok == token.DEFINE {
+				r.changed = true
+				k := r.tmp("k")
+				if id, ok := n.Key.(*ast.Ident); ok && id.Name != "_" {
+					k = ast.NewIdent(id.Name)
+				}
+				body := []ast.Stmt{}
+				if id, ok := n.Value.(*ast.Ident); ok && id.Name != "_" {
+					body = append(body, &ast.AssignStmt{Lhs: []ast.Expr{ast.NewIdent(id.Name)}, Tok: token.DEFINE, Rhs: []ast.Expr{&ast.IndexExpr{X: n.X, Index: ast.NewIdent(k.Name)}}})
+				}
+				for _, b := range n.Body.List {
+					body = append(body, r.rw(b).(ast.Stmt))
+				}
+				return &ast.RangeStmt{Key: ast.NewIdent("_"), Value: ast.NewIdent(k.Name), Tok: token.DEFINE, X: call("SortedKeys", n.X), Body: &ast.BlockStmt{List: body}}
+			}
 		}
 	}
 	return nil
+}
+
+// maps (by file and field name) whose range loops are made deterministic in the sched build
+var sortedRangeSites = map[string]map[string]bool{
+	"pkg/output/file_output_handlers.go": {"outputHandlers": true, "lruNodes": true},
 }
 
 func (r *rewriter) rw(n ast.Node) ast.Node {
